@@ -162,8 +162,12 @@ def stepSourceOp (d : DState) (op : String) (toks impl : List String) : Option (
 
 /-! ### sinks -/
 
+/-- `sink_min_f64` etc.: the same sink at `f64` (partial order: NaN) -/
+def baseSinkKind (kind : String) : String :=
+  if kind.endsWith "_f64" then String.ofList (kind.toList.take (kind.length - 4)) else kind
+
 def mkSink (kind : String) : Option (Sk V) :=
-  match kind with
+  match baseSinkKind kind with
   | "sink_min" => some (.min none)
   | "sink_max" => some (.max none)
   | "sink_bounds" => some (.bounds none none)
@@ -183,6 +187,7 @@ def renderFin (o : Option (List V)) : String :=
 
 /-- C11: the batch statistic of everything received -/
 def specFinalize (kind : String) (h : List V) : Option (List V) :=
+  let kind := baseSinkKind kind
   if kind == "sink_unit_sum" then some [Spec.sum h] else
   if h.isEmpty then (if kind == "sink_collect" then some [] else none) else
   let mn := (Spec.extremum ltB h).getD V.err
@@ -201,6 +206,7 @@ def specFinalize (kind : String) (h : List V) : Option (List V) :=
 
 /-- C11: the running statistic of the prefix seen so far -/
 def specRunning (kind : String) (h : List V) : Option (List V) :=
+  let kind := baseSinkKind kind
   let mn := (Spec.extremum ltB h).getD V.err
   let mx := (Spec.extremum gtB h).getD V.err
   match kind with
@@ -213,6 +219,22 @@ def specRunning (kind : String) (h : List V) : Option (List V) :=
   | "sink_stats" => some [mn, mx, Spec.batchMean h, Spec.sumSqDev h]
   | "sink_collect" => some h
   | _ => none
+
+def isNan : V → Bool
+  | .nan => true
+  | _ => false
+
+/-- C11 with incomparable samples (NaN) among those received: whatever the treatment of NaN (ignored, propagated,
+the plain strict fold), a reported minimum / maximum is NaN or the extremum of the comparable samples -/
+def partialOrderClauses (kind : String) (h : List V) (y : Option (List V)) : List Clause :=
+  let clean := h.filter (fun v => !isNan v)
+  let okFor (better : V → V → Bool) (v : V) : Bool := isNan v || some v == Spec.extremum better clean
+  let ok := match baseSinkKind kind, y with
+    | "sink_min", some [v] => okFor ltB v
+    | "sink_max", some [v] => okFor gtB v
+    | "sink_bounds", some [a, b] => okFor ltB a && okFor gtB b
+    | _, _ => true
+  [clauseP "C11.extremum-partial-order" ok "NaN or the extremum of the comparable samples"]
 
 def DState.getSink (d : DState) (id : Nat) : Option SkInst := (d.sinks.find? (·.1 == id)).map (·.2)
 def DState.putSink (d : DState) (id : Nat) (i : SkInst) : DState :=
@@ -238,7 +260,8 @@ def stepSinkOp (d : DState) (op : String) (toks impl : List String) : Option (DS
     let hist := i.hist ++ [x]
     let d := (d.putSink id { i with k := r.1, hist := hist }).flag (if hist.length > 1 then "sink.multi" else "sink.first")
     let implOut := (parseOut impl).getD none
-    let cl := match specRunning i.kind hist, implOut with
+    let cl := if hist.any isNan then partialOrderClauses i.kind hist implOut else
+      match specRunning i.kind hist, implOut with
       | some e, some y => [clauseEq "C11.running" e y]
       | _, _ => []
     some (report d op { model := renderOut (some r.2), impl := implS, kind := i.kind, clauses := cl })
@@ -247,8 +270,9 @@ def stepSinkOp (d : DState) (op : String) (toks impl : List String) : Option (DS
     let i ← d.getSink id
     let e := renderFin (specFinalize i.kind i.hist)
     let d := d.flag (if i.hist.isEmpty then "sink.fin-empty" else if i.hist.length == 1 then "sink.fin-one" else "sink.fin-many")
-    some (report d op { model := renderFin i.k.finalize, impl := implS, kind := i.kind,
-                        clauses := [{ name := "C11.finalize", ok := e == implS, expected := e }] })
+    let cl : List Clause := if i.hist.any isNan then partialOrderClauses i.kind i.hist ((parseOut impl).getD none)
+      else [{ name := "C11.finalize", ok := e == implS, expected := e }]
+    some (report d op { model := renderFin i.k.finalize, impl := implS, kind := i.kind, clauses := cl })
   | _ => none
 
 /-! ### pipes -/
